@@ -402,6 +402,8 @@ func checkC06(p *Program, r *Report) {
 	}
 
 	c06Trace(r, ws, rs)
+	c06DecodeDecision(r, rs)
+	c06EncodeDecision(r, ws)
 
 	// ---- fallback signalling -----------------------------------------------------------------------
 	c06Fallback(p, r)
@@ -915,5 +917,172 @@ func c06OnlyRefusal(p *Program, r *Report) {
 				r.Fail("only-refusal", key, ret.Pos(), "%s returns an error of its own that is not the refusal of a payload longer than %d bytes: segments the property requires to round trip are rejected", fn.Name(), segMaxPayload)
 			}
 		}
+	}
+}
+
+// c06DecodeDecision: with a compressor configured, the wire says whether a payload is compressed
+// through ONE signal - the second length field (bits 17-33) is zero when the payload is stored as
+// is. Every reader path must act on that signal: payload stored as is <=> no call to Decompress; a
+// non-zero second field (and a non-zero first field) <=> the payload goes through Decompress; in
+// both cases the number of payload bytes read is the first field. A reader that re-derives the
+// decision from something else (two lengths being equal, say) disagrees with the writer on the
+// segments where the two criteria differ.
+func c06DecodeDecision(r *Report, rs []*segRead) {
+	cBits, uBits := expectField("c", 17, 0), expectField("u", 17, 17)
+	n := 0
+	for _, rd := range rs {
+		if !rd.hasComp {
+			continue
+		}
+		n++
+		key := "DecodeSegment path " + readerPathName(rd)
+		find := func(b *Bits) (bool, bool) {
+			for a, pol := range rd.st.atoms {
+				if strings.HasSuffix(a, "== 0") && strings.Contains(a, strings.TrimPrefix(b.String(), "bits:")+" ") {
+					return pol, true
+				}
+			}
+			return false, false
+		}
+		uz, uKnown := find(uBits)
+		cz, cKnown := find(cBits)
+		decompress, size := false, ""
+		for _, s := range rd.st.trace {
+			if s.Kind == "dyn" && strings.HasSuffix(s.Name, ".Decompress") {
+				decompress = true
+			}
+			if s.Kind == "crc" && s.Name == "ChecksumIEEE" && len(s.Args) > 0 {
+				size = fmt.Sprint(s.Args[0])
+			}
+		}
+		switch {
+		case !uKnown:
+			r.Fail("decode-decision", key, token.NoPos, "a payload is decoded with a compressor configured without the second length field (header bits 17-33) being tested against 0: that field is the wire's only signal for 'stored as is'")
+		case uz && decompress:
+			r.Fail("decode-decision", key, token.NoPos, "the header signals a payload stored as is (bits 17-33 are 0) but the payload is passed to Decompress")
+		case !uz && cKnown && !cz && !decompress:
+			r.Fail("decode-decision", key, token.NoPos, "the header signals a compressed payload (bits 17-33 non-zero, bits 0-16 non-zero) but the bytes are delivered without Decompress (conditions {%s}): a segment whose compressed form is kept by the writer is returned still compressed", describeAtoms(rd.st))
+		case strings.HasPrefix(size, "alloc(") && (uz || (cKnown && !cz)) && !strings.Contains(size, strings.TrimPrefix(cBits.String(), "bits:")+")"):
+			r.Fail("decode-decision", key, token.NoPos, "the payload read is sized %s, not by the first length field (bits 0-16)", size)
+		default:
+			r.OKf("decode-decision", key, token.NoPos, "stored-as-is signal=%v decompress=%v", uz, decompress)
+		}
+	}
+	if n == 0 {
+		r.Fail("decode-decision", "DecodeSegment", token.NoPos, "no reader path with a compressor configured")
+	}
+}
+
+// splitCmp splits an atom "X op Y" at the top-level comparison operator.
+func splitCmp(a string) (x, op, y string, ok bool) {
+	depth := 0
+	for i := 0; i < len(a); i++ {
+		switch a[i] {
+		case '(', '[', '{':
+			depth++
+		case ')', ']', '}':
+			depth--
+		case ' ':
+			if depth != 0 {
+				continue
+			}
+			for _, o := range []string{">=", "<=", "==", "!=", ">", "<"} {
+				if strings.HasPrefix(a[i+1:], o+" ") {
+					return a[:i], o, a[i+2+len(o):], true
+				}
+			}
+		}
+	}
+	return "", "", "", false
+}
+
+// orderFeasible: the comparisons a path has taken between one pair of operands leave at least one
+// of the three orderings (<, =, >) possible. The evaluator forks on every comparison separately;
+// a path that took "a > b" and "not a >= b" does not exist.
+func orderFeasible(st *State) bool {
+	type pair struct{ x, y string }
+	possible := map[pair]map[string]bool{}
+	holds := func(op, ord string) bool {
+		switch op {
+		case ">":
+			return ord == ">"
+		case ">=":
+			return ord != "<"
+		case "<":
+			return ord == "<"
+		case "<=":
+			return ord != ">"
+		case "==":
+			return ord == "="
+		case "!=":
+			return ord != "="
+		}
+		return true
+	}
+	flip := map[string]string{"<": ">", ">": "<", "=": "="}
+	for a, pol := range st.atoms {
+		x, op, y, ok := splitCmp(a)
+		if !ok {
+			continue
+		}
+		k, swapped := pair{x, y}, false
+		if _, seen := possible[pair{y, x}]; seen {
+			k, swapped = pair{y, x}, true
+		}
+		if possible[k] == nil {
+			possible[k] = map[string]bool{"<": true, "=": true, ">": true}
+		}
+		for ord := range possible[k] {
+			o := ord
+			if swapped {
+				o = flip[ord]
+			}
+			if holds(op, o) != pol {
+				delete(possible[k], ord)
+			}
+		}
+		if len(possible[k]) == 0 {
+			return false
+		}
+	}
+	return true
+}
+
+// c06EncodeDecision: with a compressor configured the writer decides once whether the compressed
+// form is worth sending, and everything it emits follows that one decision: header bits 17-33 are
+// zero (the "stored as is" signal) exactly on the paths whose payload bytes are the uncompressed
+// data. A second, slightly different test for the header (>= where the payload used >) sends the
+// compressed bytes under a header that says they are not compressed.
+func c06EncodeDecision(r *Report, ws []*segWritten) {
+	n := 0
+	for _, w := range ws {
+		if !w.hasComp || !orderFeasible(w.st) {
+			continue
+		}
+		n++
+		key := fmt.Sprintf("EncodeSegment path %s #%d", writerPathName(w), n)
+		signal := true
+		for b := 17; b < 34; b++ {
+			if w.H.B[b] != "0" {
+				signal = false
+			}
+		}
+		asIs := strings.Contains(w.rawArg, "p0.Payload.UncompressedData")
+		if signal != asIs {
+			what := "the compressor's output"
+			if asIs {
+				what = "the uncompressed data"
+			}
+			says := "compressed (bits 17-33 carry a length)"
+			if signal {
+				says = "stored as is (bits 17-33 are 0)"
+			}
+			r.Fail("encode-decision", key, token.NoPos, "the payload written is %s (%s) but the header says %s (conditions {%s}): the reader, which goes by the header, returns other bytes than were given", what, w.rawArg, says, describeAtoms(w.st))
+		} else {
+			r.OKf("encode-decision", key, token.NoPos, "stored-as-is signal=%v, payload=%s", signal, w.rawArg)
+		}
+	}
+	if n == 0 {
+		r.Fail("encode-decision", "EncodeSegment", token.NoPos, "no writer path with a compressor configured")
 	}
 }
